@@ -213,7 +213,8 @@ Fixpoint free_chain (fuel : nat) (hx : heap) (hd : N) (mem : tag) (a : alloc_st)
     do n <- load hx hd; do a1 <- release mem hd a; free_chain f (hdel hx hd) (n_next n) mem a1
   end.
 
-(** link_all_externally(list, &h, &t): [src]/[mem] are the source's heap and allocator; the copy
+(** link_all_externally(dest, list, &h, &t): [src] is the source's heap, [mem] the DESTINATION's allocator
+    (the copies are requested from, and on failure returned to, the list they will belong to); the copy
     chain is built in its own heap [hx]. [k] = remaining iterations, [fuel] bounds the cleanup. *)
 Fixpoint lae_loop (k fuel : nat) (src : heap) (mem : tag) (insert hd tl : N) (hx : heap) (a : alloc_st)
   : res (option (N * N * heap) * alloc_st) :=
@@ -229,12 +230,12 @@ Fixpoint lae_loop (k fuel : nat) (src : heap) (mem : tag) (insert hd tl : N) (hx
           lae_loop k' fuel src mem (n_next ni) (if hd =? 0 then id else hd) id hx1 a1
       end
   end.
-Definition link_all_externally (l2 : clist) (a : alloc_st) : res (option (N * N * heap) * alloc_st) :=
-  lae_loop (N.to_nat (l_size l2)) (N.to_nat (l_size l2)) (l_heap l2) (l_mem l2) (l_head l2) 0 0 [] a.
+Definition link_all_externally (dest l2 : clist) (a : alloc_st) : res (option (N * N * heap) * alloc_st) :=
+  lae_loop (N.to_nat (l_size l2)) (N.to_nat (l_size l2)) (l_heap l2) (l_mem dest) (l_head l2) 0 0 [] a.
 
 Definition add_all_to_empty (l1 l2 : clist) (a : alloc_st) : res (stat * clist * alloc_st) :=
   if l_size l2 =? 0 then Ok (CC_OK, l1, a) else
-  do (r, a1) <- link_all_externally l2 a;
+  do (r, a1) <- link_all_externally l1 l2 a;
   match r with
   | None => Ok (CC_ERR_ALLOC, l1, a1)
   | Some (hd, tl, hx) => Ok (CC_OK, upd l1 (l_size l2) hd tl (hx ++ l_heap l1), a1)
@@ -270,7 +271,7 @@ Definition cl_add_all_at (l1 l2 : clist) (index : N) (a : alloc_st) : res (stat 
   if l_size l2 =? 0 then Ok (CC_OK, l1, a) else
   if g_list_add_all_at_range index (l_size l1) then Ok (CC_ERR_OUT_OF_RANGE, l1, a) else
   if l_size l1 =? 0 then add_all_to_empty l1 l2 a else
-  do (r, a1) <- link_all_externally l2 a;
+  do (r, a1) <- link_all_externally l1 l2 a;
   match r with
   | None => Ok (CC_ERR_ALLOC, l1, a1)
   | Some (hd, tl, hx) =>
